@@ -137,6 +137,16 @@ def label_ast(label, tag):
     ]
 
 
+def label_define_ast(label, tag):
+    """The label as the name of a Define'd parameter, used plain and negated (names that start with a digit, sign or
+    dot cannot be told from numbers / negated uses and are left out)."""
+    if label[0] in DIGITS + "+-.":
+        return None
+    name = label + (tag or "")
+    return [["Define", name, "0.25"],
+            ["Decay", "Dm" + (tag or "") if tag else "Dm", [["1.0", ["X", "Y"], 0, "SVS", [name, "0.1", "-" + name, "w"]]]]]
+
+
 # part D: numeric literal forms
 def numeric_forms():
     return [s + m + e for s in ["", "+", "-"] for m in ["1", "12", "1.", "1.5", ".5", "1.25"] for e in ["", "e2", "E2", "e+2", "e-2", "E+12"]]
@@ -236,7 +246,10 @@ def run(ctx):
     run_tasks(ctx, work_packed, chunks(C, 60))
     Cs = [("label", lab, label_ast(lab, None)) for lab in labs if len(lab) == 2 or ctx.thorough]
     run_tasks(ctx, work_unpacked, chunks(Cs, 40))
-    ctx.count(states=len(C), transitions=3 * len(C))
+    CD = [("label-as-define", lab, label_define_ast(lab, f"_{i}")) for i, lab in enumerate(labs) if label_define_ast(lab, f"_{i}")]
+    run_tasks(ctx, work_packed, chunks(CD, 60))
+    run_tasks(ctx, work_unpacked, chunks([("label-as-define", lab, label_define_ast(lab, None)) for lab in labs if label_define_ast(lab, None)], 40))
+    ctx.count(states=len(C) + len(CD), transitions=3 * len(C) + 2 * len(CD))
     ctx.part("C-labels", labels=len(labs), unpacked=len(Cs), complete=True)
     ctx.sample({"part": "C", "label": labs[300], "text": decmodel.render(C[300][2])})
 
